@@ -369,20 +369,26 @@ def clauses(tier, seed):
       Clause('numeric:exact index formulas (d_dlon pairing, laplacian, inverse, clip, shift)', 'numeric', fns, run_index_formulas,
              replay=None, group='jax-b', heavy=True),
       Clause('numeric:operators vs sympy closed-form harmonics', 'numeric', fns, run_sympy_oracle, replay=replay_op, group='jax-c', heavy=True),
-      Clause('numeric:vector-calculus identities and wind round trip', 'numeric', fns, run_identities, group='jax-d', heavy=True),
+      Clause('numeric:vector-calculus identities and wind round trip', 'numeric', fns, run_identities, replay=_replay_wind, group='jax-d', heavy=True),
   ] + _pyvc_clauses()
+
+
+def _replay_wind(w):
+  from contracts import wind_contracts
+  return wind_contracts.replay_wind(w)
 
 
 def _pyvc_clauses():
   from contracts import conformance_contracts as _conf
   _extra = [_conf.clauses()[k] for k in ['C02', 'C02b']]
-  from contracts import fourier_contracts, grid_contracts
-  return [c for c in fourier_contracts.clauses() if any(k in c.name for k in ('shift ==', 'real_basis_derivative pairing', 'with_zero_imag pairing', 'canary'))] + grid_contracts.clauses() + _extra
+  from contracts import fourier_contracts, grid_contracts, recurrence_contracts, wind_contracts
+  return ([c for c in fourier_contracts.clauses() if any(k in c.name for k in ('shift ==', 'real_basis_derivative pairing', 'with_zero_imag pairing', 'canary'))] + grid_contracts.clauses()
+          + recurrence_contracts.clauses() + wind_contracts.clauses() + _extra)
 
 
 MANIFEST = {
     'engine': 'pyvc+jxa',
-    'technique': 'contract-based deductive: shift and both longitude-derivative pairings proved from the real source for all sizes (pyvc array mode, z3); linearity proved on the traced program; operator matrices on complete bases vs index formulas, sympy closed forms and vector identities (bounded over grids)',
+    'technique': 'contract-based deductive: shift, both longitude-derivative pairings, the latitude-derivative recurrence weights and both two-term recurrences, Laplacian eigenvalues / inverse / clipping proved from the real source for all sizes, paddings and zonal rows (pyvc array / row mode, z3); gradient / divergence / curl wrappers and the wind <-> (vorticity, divergence) conversions proved equal to their documented operator expressions for both clip flags (EUF over an abstract field sort); linearity proved on the traced program; operator matrices on complete bases vs index formulas, sympy closed forms and vector identities (bounded over grids)',
     'text': ('other: linearity of every operator is proved per configuration from the jaxpr; all remaining clauses are matrix identities on '
              'the complete coefficient basis (complete over fields), float64, bounded over the enumerated grids. The symbolic-size '
              'index clauses of DESIGN 3/C02 (shift, pairing for all sizes) are covered here only at enumerated sizes.'),
